@@ -756,6 +756,10 @@ class Interp:
             if not obj.fresh:
                 self.ctx.writes.append(("field", obj, name))
             obj.fields[name] = v
+            # a field the function under test has just assigned is no longer unknown left-over state of an earlier call
+            hid = getattr(obj, "hidden", None)
+            if hid and name in hid:
+                hid.discard(name)
             return
         if isinstance(obj, ClassRef):
             self.ensure_class_state(obj.cls)
@@ -1113,6 +1117,11 @@ class Interp:
         """args includes self/cls for methods"""
         if self.policy is not None:
             c = self.policy.contract_for(fi, self)
+            if c is not None and self._optional_args_outside_contract(c, fi, args, kwargs):
+                # the call hands over an optional argument the callee's contract does not speak about (the contract was
+                # verified for the default only): the contract says nothing about this call, the real body is executed
+                self.call_log.append(("inline-optional-argument", fi.qualname))
+                c = None
             if c is not None:
                 self.call_log.append(("contract", fi.qualname))
                 return c.apply(self, fi, args, kwargs)
@@ -1142,6 +1151,16 @@ class Interp:
                 v.label = f"default argument of {fi.qualname}"
             cache[k] = v
         return cache[k]
+
+    def _optional_args_outside_contract(self, c, fi, args, kwargs):
+        if not getattr(c, "verify", True):
+            return False        # an ASSUMED call-site model (listed as such) describes every call of its function
+        a = fi.node.args
+        params = [p.arg for p in a.posonlyargs + a.args]
+        first_default = len(params) - len(a.defaults)
+        given = set(params[first_default:len(args)]) | (set(kwargs) & set(params[first_default:]))
+        given |= {p.arg for p, d in zip(a.kwonlyargs, a.kw_defaults) if d is not None and p.arg in kwargs}
+        return bool(given - set(getattr(c, "optional_params_modelled", ())))
 
     def bind_params(self, fi, args, kwargs):
         a = fi.node.args
